@@ -108,7 +108,7 @@ Definition timer_stop (t : Z) : Z * bool :=
 
 Definition r_get_stop (checks_tomb : bool) (id : Z) (s : rstate) : rstate :=
   match get_item id (rs_items s) with
-  | None => rout s 0
+  | None => if checks_tomb then rout s 0 else s
   | Some it =>
       let '(t', stopped) := timer_stop (ri_timer it) in
       let s1 := with_items s (set_item id {| ri_tomb := ri_tomb it; ri_timer := t' |} (rs_items s)) in
@@ -118,7 +118,8 @@ Definition r_get_stop (checks_tomb : bool) (id : Z) (s : rstate) : rstate :=
                         rs_held := id :: rs_held s1; rs_firing := rs_firing s1; rs_pending := rs_pending s1;
                         rs_panic := rs_panic s1; rs_out := rs_out s1 |}
                 else s1 in
-      rout s2 (1 + 2 * zb stopped + 4 * zb (ri_tomb it))
+      (* only the frame handlers look at the result; failRelayItem returns nothing *)
+      if checks_tomb then rout s2 (1 + 2 * zb stopped + 4 * zb (ri_tomb it)) else s2
   end.
 
 Definition drop_held (id : Z) (s : rstate) : rstate :=
